@@ -154,7 +154,7 @@ static void run_script(int tid, const std::string& script, ThreadObs& o) {
   if (have) { intact(o, cur, tag, "at end"); (void)W.alloc->release(cur.rx()); }
 }
 
-struct Scenario { const char* name; std::vector<std::string> scripts; int pre; uint32_t options; };
+struct Scenario { const char* name; std::vector<std::string> scripts; int pre; uint32_t options; int bound_delta = 0; };
 static std::vector<Scenario> scenarios() {
   return {
     {"alloc-2t", {"a2vqr", "a2hsr"}, 0, 0},
@@ -167,6 +167,7 @@ static std::vector<Scenario> scenarios() {
     {"wshrink-fill-3t", {"a1Wr", "a3Wq", "a0sr"}, 0, 4},
     {"dual-2t", {"a2Wvr", "a1hqr"}, 0, 1},
     {"runtime-3t", {"J", "J", "a0sr"}, 0, 0},
+    {"alloc-4t", {"a0r", "a1r", "a4q", "s"}, 0, 0, -1},   // four threads: one preemption less than the tier's bound
     {"codegen-2t", {"A", "C"}, 0, 0},
     {"codegen-3t", {"C", "C", "A"}, 0, 0},
   };
@@ -348,7 +349,7 @@ int main(int argc, char** argv) {
   for (size_t si = 0; si < scs.size(); si++) {
     if (!c.mine((long long)si)) continue;
     const Scenario& sc = scs[si];
-    Explorer ex{sc, bound, solo_logs(sc)};
+    Explorer ex{sc, bound + sc.bound_delta, solo_logs(sc)};
     // determinism self-check: the default schedule twice
     { Run a = execute(sc, {}, ex.solo), b = execute(sc, {}, ex.solo); if (a.obs != b.obs || a.taken != b.taken) { fprintf(stderr, "c11: default schedule of %s is not deterministic\n%s\n%s\n", sc.name, a.obs.c_str(), b.obs.c_str()); return 2; } }
     ex.explore({});
@@ -357,7 +358,7 @@ int main(int argc, char** argv) {
     c.n("max_scheduling_points") = std::max(c.n("max_scheduling_points"), ex.max_points);
     for (auto& o : ex.outcomes) c.outcomes.insert(std::string(sc.name) + o);
     c.strs[std::string("schedules:") + sc.name] = std::to_string(ex.schedules) + " schedules, " + std::to_string(ex.outcomes.size()) + " distinct outcomes, <=" +
-                                                   std::to_string(ex.max_points) + " scheduling points" + (ex.stop ? " (capped by deadline)" : "");
+                                                   std::to_string(ex.max_points) + " scheduling points, <=" + std::to_string(bound + sc.bound_delta) + " preemptions" + (ex.stop ? " (capped by deadline)" : "");
   }
   c.strs["bound"] = "preemptions<=" + std::to_string(bound) + " per scenario (per-scenario counts under schedules:<name>)";
   c.strs["rule"] = "all interleavings with at most the stated number of preemptions of 2-3 real threads per scenario; scheduling points = every pthread_mutex_lock/unlock "
